@@ -166,6 +166,7 @@ def w_addr(exes, addrs):
             part["viol"].append(("crash/%s/%s" % (vname(c), sig), {"address": core.b2s(addrs[idx]) if idx >= 0 else ""}, {"stderr": err[-1200:]}))
         R[c] = recs
     cnt = part["counters"]
+    us_check = set()
     for c, x, cx_ in edges():
         for i, s in enumerate(addrs):
             ra, rb = R[c][i], R[cx_][i]
@@ -186,11 +187,37 @@ def w_addr(exes, addrs):
                     allowed = True
                 elif x == OUS and b"_" in D:
                     allowed = True
+                    us_check.add(i)
                 if not allowed:
                     part["viol"].append(("leak/%s-changes-record/%s" % (x, driver.MODES[m]),
                                          {"address": core.b2s(s), "option": x, "base_build": sorted(c), "mode": driver.MODES[m]},
                                          {"off": x0, "on": x1}))
                     break
+    # LABELS_ALLOW_UNDERSCORE: "additionally accepts exactly the host names that become valid when '_' counts as a letter":
+    # decision(on-build, s) == decision(off-build, s with 'u' for every '_' of the domain), ASCII modes, tld off
+    idx = sorted(i for i in range(len(addrs)) if b"_" in addrs[i][addrs[i].rfind(b"@") + 1:] and addrs[i].rfind(b"@") > 0
+                 and addrs[i][addrs[i].rfind(b"@") + 1:addrs[i].rfind(b"@") + 2] != b"[")
+    if idx:
+        none = frozenset()
+        sub = []
+        for i in idx:
+            s = addrs[i]
+            at = s.rfind(b"@")
+            sub.append(s[:at + 1] + s[at + 1:].replace(b"_", b"u"))
+        rs, _ = driver.run_lines_resilient(exes[none], [driver.A_line(a, sections=1, modes=7, tlds=1) for a in sub])
+        for c in exes:
+            if OUS not in c:
+                continue
+            for i, r0 in zip(idx, rs):
+                r1 = R[c][i]
+                if r0 is None or r1 is None:
+                    continue
+                for m in range(3):
+                    cnt["underscore-relation.compared"] += 1
+                    if bool(r1["hl"][str(2 * m)][0]) != bool(r0["hl"][str(2 * m)][0]):
+                        part["viol"].append(("%s/underscore-relation/address/%s" % (OUS, driver.MODES[m]),
+                                             {"address": core.b2s(addrs[i]), "build": sorted(c), "mode": driver.MODES[m]},
+                                             {"on_build": r1["hl"][str(2 * m)][:2], "off_build_with_u_for_underscore": r0["hl"][str(2 * m)][:2]}))
     part["distinct"] = len(set(addrs))
     if addrs:
         part["samples"].append({"source": "addresses", "address": core.b2s(addrs[len(addrs) // 2][:100]), "builds": 8})
@@ -236,6 +263,12 @@ def main(tier, seed):
     for l in (b"a#b", b"#", b'"#"', b'a."#".b', b"{a}", b"a|b", b"a~", b"`a", b"a^b", b'"a b"', b'"a\x01b"', b'" a"', b"a_b", b'"\t"'):
         for d in (b"a.com", b"a_b.com", b"_a.com", b"a.b_c", "почта.рф".encode(), b"[1.2.3.4]", b"xn--a_b.com", b"a_.com"):
             extra.append(l + b"@" + d)
+    # long labels with underscores (a label must stay <= 63 whatever it is made of)
+    for n in (62, 63, 64, 65, 70):
+        for lab in (b"a" * (n - 1) + b"_", b"_" * n, b"a" * 63 + b"_" * max(0, n - 63), (b"a_" * n)[:n], b"_" + b"a" * (n - 1), b"a" * 31 + b"_" + b"b" * (n - 32)):
+            for tail in (b".com", b"", b".b_c", b"."):
+                extra.append(b"x@" + lab + tail)
+                extra.append(b"x@m." + lab + tail)
     addrs = sorted(set(addrs) | set(extra))
     if tier == "quick":
         addrs = addrs[::2] + extra
